@@ -5,3 +5,4 @@ INVARIANT Range
 INVARIANT Monotone
 INVARIANT EndPoints
 INVARIANT NaNMasked
+INVARIANT AffineInvariant
